@@ -2,6 +2,6 @@ SPECIFICATION Spec
 CONSTANTS
   Variant = "ref"
   Setup <- SetupBaseA
-  ProgChoices <- ProgsQuick
+  ProgChoices <- ProgsQuickAll
 INVARIANTS Inv_ConcPure Inv_NoRace Inv_NotStuck Inv_CacheAgree
 CHECK_DEADLOCK FALSE
